@@ -64,7 +64,21 @@ pub fn generate(prop: &str, rng: &mut Rng, tier: Tier) -> Scenario {
     let mut f = rng.fork("fault");
     let mut s = rng.fork("sched");
     let faulty = g.below(3) != 0;
-    let mix = Mix::draw(&mut g, prop);
+    let mut mix = Mix::draw(&mut g, prop);
+    // C28: rare receipt-flood scenarios up to the 65 535-receipt limit. Their contracts are quiet
+    // (no receipts of their own), so that a callee's RET / RETD / RVRT lands on a reserved slot.
+    let flood_run = prop == "C28" && g.chance(1, if tier == Tier::Thorough { 200 } else { 1200 });
+    if flood_run {
+        mix.log = 0;
+        mix.transfer = 0;
+        mix.call = 0;
+        mix.code = 0;
+        mix.meta = 0;
+        mix.raw = 0;
+        mix.fail = 0;
+        mix.wild = 0;
+        mix.storage = 0;
+    }
     let mut gas = match (prop, g.below(11)) {
         ("C29", 0..=6) => GasSched::Default,
         (_, 0..=4) => GasSched::Default,
@@ -163,15 +177,19 @@ pub fn generate(prop: &str, rng: &mut Rng, tier: Tier) -> Scenario {
         let variable_outputs: Vec<u8> = outputs.iter().enumerate().filter(|(_, o)| matches!(o, OutSpec::Variable)).map(|(k, _)| (k + n_contract_outputs) as u8).collect();
         let len = g.range(2, if tier == Tier::Thorough { 90 } else { 60 }) as usize;
         // C28: rare receipt floods up to the 65 535-receipt limit (cheap schedule, ample gas)
-        let flood = prop == "C28" && g.chance(1, if tier == Tier::Thorough { 250 } else { 1500 });
+        let flood = flood_run;
         let script = if flood {
             gas = GasSched::Unit;
-            let logs = 65_535 - g.below(8);
-            let mut pg = PGen::new(&mut g, true, &mix, n_dep);
+            let logs = 65_536 - g.below(9);
+            let mut call_mix = mix.clone();
+            call_mix.call = 6;
+            call_mix.log = 2;
+            let mut pg = PGen::new(&mut g, true, &call_mix, n_dep);
             pg.n_blobs = nblobs;
             pg.variable_outputs = variable_outputs;
-            let n = pg.g.below(6) as usize;
-            pg.flood_program(logs, n)
+            let n = pg.g.below(4) as usize;
+            let call_first = pg.g.chance(2, 3);
+            pg.flood_program(logs, n, call_first)
         } else if prop == "C29" && g.chance(1, 2) {
             random_program(&mut g, len)
         } else {
